@@ -23,9 +23,11 @@ def callsBefore (l : List String) (a b : String) : Bool := l.idxOf a < l.idxOf b
 
 /-- `addBoardRecord` hands `SubstituteRecord` the 0-based slot; `IsValid`'s loop reads the byte at its loop
 variable; in `mNewbrd` the name checks and the duplicate lookup precede `Mkdir`, `addBoardRecord` follows it and
-the directory is removed again when it fails; `NewBoard` decides the permission before `mNewbrd`. -/
+the directory is removed again when it fails; `NewBoard` refuses a parent that is vacated or not a group board
+and decides the permission before `mNewbrd`. -/
 theorem source_facts :
     Gen.NewBoard.substituteIndex = "zeroBased" ∧ Gen.NewBoard.isValidIndex = "b[idx]" ∧
+    Gen.NewBoard.parentCheck = "vacatedOrNonGroup" ∧
     Gen.NewBoard.isValidLenLo = 2 ∧ Gen.NewBoard.isValidLenHi = Gen.NewBoard.idLen ∧
     callsBefore Gen.NewBoard.mNewbrdCalls "brdname.IsValid" "cache.GetBid" = true ∧
     callsBefore Gen.NewBoard.mNewbrdCalls "cache.GetBid" "types.Mkdir" = true ∧
@@ -150,13 +152,26 @@ theorem create_coherent_fails_hidden {srt : Sorter} (hs : SortSpec srt) {s : Sta
   obtain ⟨h1, h2, _⟩ := create_coherent_partial hs h hiddenReq b hb
   refine ⟨_, _, h2, h1, ?_, ?_, ?_⟩ <;> rw [hu] <;> decide
 
-/-- … and it is accepted, e.g. on the empty table (so the statement above is not vacuous). -/
-example : ∃ b, (newBoard insSort (reload insSort (fresh [] [] [72] [])) hiddenReq).2 = .ok (.ok b) := by
-  have hI : Inv (reload insSort (fresh [] [] [72] [])) :=
-    inv_reload insSort_spec [] [] [72] [] (by simp) (by intro i j ri rj hi; simp at hi)
+/-- a class (group board) "Cl" in slot 0. -/
+def classRec : Rec := { Rec.zero with name := [67, 108] ++ zeros 11, attr := 8 }
+
+/-- … and it is accepted, e.g. on the table that holds one class (so the statement above is not vacuous). -/
+example : ∃ b, (newBoard insSort (reload insSort (fresh [classRec] [] [72] [])) hiddenReq).2 = .ok (.ok b) := by
+  have hI : Inv (reload insSort (fresh [classRec] [] [72] [])) :=
+    inv_reload insSort_spec [classRec] [] [72] [] (by decide) (by
+      intro i j ri rj hi hj _ _
+      have hi' : i < 1 := by
+        rcases Nat.lt_or_ge i 1 with h | h
+        · exact h
+        · rw [List.getElem?_eq_none (by simpa using h)] at hi; cases hi
+      have hj' : j < 1 := by
+        rcases Nat.lt_or_ge j 1 with h | h
+        · exact h
+        · rw [List.getElem?_eq_none (by simpa using h)] at hj; cases hj
+      omega)
   obtain ⟨res, h1, hstep, _⟩ := create_refines insSort_spec hI hiddenReq
-  have hd : specDecide [72] [] [] hiddenReq = none := by decide
-  have hs' : SpecStep [] [72] [] [] hiddenReq res _ _ := hstep
+  have hd : specDecide [72] [] [classRec] hiddenReq = none := by decide
+  have hs' : SpecStep [] [72] [classRec] [] hiddenReq res _ _ := hstep
   simp only [SpecStep, hd] at hs'
   obtain ⟨k, hk, _⟩ := hs'
   exact ⟨k + 1, by rw [h1, hk]⟩
@@ -170,10 +185,11 @@ theorem refused_noop {srt : Sorter} (hs : SortSpec srt) {s : State} (h : Inv s) 
   rw [hr] at h1; cases h1
   exact hsame hno
 
-/-- each cause named by the property is a refusal: an invalid parent, insufficient rights, a malformed name, a
+/-- each cause named by the property is a refusal: an invalid parent (out of range, vacated, beyond the table,
+not a group board), insufficient rights, a malformed name, a
 name that exists in any letter case, no capacity (and the two environment refusals of `Mkdir`). -/
 theorem refusal_causes (letters : List Nat) (dirs : List Bytes) (t : List Rec) (q : Req)
-    (hc : validBid q.cls = false ∨ permitted t q = false ∨ validNameSpec q.name = false ∨
+    (hc : validBid q.cls = false ∨ parentIsClass t q.cls = false ∨ permitted t q = false ∨ validNameSpec q.name = false ∨
       nameTaken t q.name = true ∨ hasLetter letters q.name = false ∨ hasDir dirs q.name = true ∨
       (hasVacant t = false ∧ MAXB ≤ t.length)) :
     ∃ r, specDecide letters dirs t q = some r ∧ ∀ b, r ≠ .ok b := by
@@ -187,8 +203,8 @@ theorem refusal_causes (letters : List Nat) (dirs : List Bytes) (t : List Rec) (
   unfold specDecide at hnone
   repeat' split at hnone
   all_goals first | cases hnone | skip
-  rename_i h1 h2 h3 h4 h5 h6 h7
-  rcases hc with h | h | h | h | h | h | ⟨h, h'⟩ <;> simp_all
+  rename_i h1 h1' h2 h3 h4 h5 h6 h7
+  rcases hc with h | h | h | h | h | h | h | ⟨h, h'⟩ <;> simp_all
 
 /-- a refusal named by the abstract table is what `NewBoard` answers, and nothing changes. -/
 theorem refused_refines {srt : Sorter} (hs : SortSpec srt) {s : State} (h : Inv s) (q : Req) (r : Res)
@@ -200,6 +216,50 @@ theorem refused_refines {srt : Sorter} (hs : SortSpec srt) {s : State} (h : Inv 
   subst hres
   have hno : ∀ b, res ≠ .ok b := fun b e => specDecide_ne_ok _ _ _ _ b (by rw [hd, e])
   exact Prod.ext (hsame hno) h1
+
+/-! #### the bbs wrapper -/
+
+theorem bbsDerive_ok {users : List Bytes} {levels : List Nat} {a : BbsArgs} {q : Req}
+    (hd : bbsDerive users levels a = .ok q) :
+    q.name = copyInto 13 a.name ∧ q.bms = some (newBM (a.bms.map (copyInto 13))) ∧ q.cls = a.cls := by
+  simp only [bbsDerive] at hd
+  by_cases h1 : (!validUserId (copyInto 13 a.userID)) = true
+  · rw [if_pos h1] at hd; cases hd
+  · rw [if_neg h1] at hd
+    by_cases h2 : (!decide (1 ≤ searchUser users (copyInto 13 a.userID) ∧
+        searchUser users (copyInto 13 a.userID) ≤ MAXU)) = true
+    · rw [if_pos h2] at hd; cases hd
+    · rw [if_neg h2] at hd
+      cases hd
+      exact ⟨rfl, rfl, rfl⟩
+
+/-- `bbs.CreateBoard` either refuses in the wrapper (invalid caller id, unknown caller) without touching
+anything, or is `ptt.NewBoard` on the derived request — whose name is the first 13 bytes of the requested
+string, whose caller is a record of the user table and whose moderator string is `NewBM` of the given ids — so
+every theorem above applies to it; in particular any answer other than an accepted creation leaves the state
+unchanged. -/
+theorem bbs_wrapper {srt : Sorter} (hs : SortSpec srt) {s : State} (h : Inv s) (levels : List Nat) (a : BbsArgs) :
+    ((∃ e, bbsDerive s.users levels a = .error e ∧ bbsCreate srt s levels a = (s, .ok e)) ∨
+     (∃ q, bbsDerive s.users levels a = .ok q ∧ q.name = copyInto 13 a.name ∧
+        q.bms = some (newBM (a.bms.map (copyInto 13))) ∧ q.cls = a.cls ∧
+        (bbsCreate srt s levels a).1 = (newBoard srt s q).1 ∧
+        (bbsCreate srt s levels a).2 = (newBoard srt s q).2.map .inner)) ∧
+    (∀ r, (bbsCreate srt s levels a).2 = .ok r → (∀ b, r ≠ .inner (.ok b)) → (bbsCreate srt s levels a).1 = s) := by
+  unfold bbsCreate
+  cases hd : bbsDerive s.users levels a with
+  | error e => exact ⟨Or.inl ⟨e, rfl, rfl⟩, fun _ _ _ => rfl⟩
+  | ok q =>
+      refine ⟨Or.inr ⟨q, rfl, ?_, ?_, ?_, rfl, rfl⟩, ?_⟩
+      · exact (bbsDerive_ok hd).1
+      · exact (bbsDerive_ok hd).2.1
+      · exact (bbsDerive_ok hd).2.2
+      · intro r hr hno
+        simp only at hr ⊢
+        obtain ⟨res, h1, _⟩ := create_refines hs h q
+        rw [h1] at hr
+        simp only [Except.map] at hr
+        cases hr
+        exact refused_noop hs h q res h1 (fun b e => hno b (by rw [e]))
 
 /-! #### the creation rules -/
 
